@@ -94,6 +94,44 @@ class Server:
         self.cap = None
         self.shell = None
         self.location = "package"
+        self.main_alias = {}     # package-style module name -> module object standing in for it (__main__ / notebook)
+
+    def resolve(self, modn):
+        if modn in self.main_alias:
+            return self.main_alias[modn]
+        return importlib.import_module(modn)
+
+    def load_main(self, modn, path):
+        """Runs the module file as the __main__ script of this process (what `python m0.py` does)."""
+        import types
+
+        with open(path) as f:
+            src = f.read()
+        mod = types.ModuleType("__main__")
+        mod.__file__ = path
+        sys.modules["__main__"] = mod
+        exec(compile(src, path, "exec"), mod.__dict__)
+        self.main_alias[modn] = mod
+
+    def load_notebook(self, modn, path):
+        """Runs the module text cell by cell in a real IPython InteractiveShell (no kernel)."""
+        from IPython.core.interactiveshell import InteractiveShell
+
+        with open(path) as f:
+            src = f.read()
+        shell = InteractiveShell.instance()
+        self.shell = shell
+        cells = [c for c in src.split("\n\n\n") if c.strip()]
+        for c in cells:
+            r = shell.run_cell(c, store_history=True, silent=True)
+            if r.error_before_exec or r.error_in_exec:
+                raise RuntimeError(f"notebook cell failed: {r.error_before_exec or r.error_in_exec}")
+        self.main_alias[modn] = shell.user_module
+
+    def run_cell(self, text):
+        r = self.shell.run_cell(text, store_history=True, silent=True)
+        if r.error_before_exec or r.error_in_exec:
+            raise RuntimeError(f"notebook cell failed: {r.error_before_exec or r.error_in_exec}")
 
     def set_store(self, spec):
         import dds
@@ -135,8 +173,18 @@ class Server:
             for a in cmd["accept"]:
                 dds.accept_module(a)
             self.set_store(cmd["store"])
+            main = cmd.get("main_module")
             for m in cmd.get("modules", []):
+                if m == main and self.location in ("main", "notebook"):
+                    continue
                 importlib.import_module(m)
+            if main and self.location == "main":
+                self.load_main(main, cmd["main_file"])
+            elif main and self.location == "notebook":
+                self.load_notebook(main, cmd["main_file"])
+            return ["ok", None]
+        if k == "cell":
+            self.run_cell(cmd["text"])
             return ["ok", None]
         if k == "rawinit":
             if cmd.get("cwd"):
@@ -154,7 +202,7 @@ class Server:
             os.chdir(cmd["dir"])
             return ["ok", None]
         if k == "mutate":
-            setattr(importlib.import_module(cmd["module"]), cmd["var"], cmd["value"])
+            setattr(self.resolve(cmd["module"]), cmd["var"], cmd["value"])
             return ["ok", None]
         if k == "memsnap":
             inner = self.cap.inner
@@ -179,7 +227,7 @@ class Server:
                     v = dds.load(cmd["path"])
                 else:
                     modn, fn = cmd["entry"].split(":")
-                    f = getattr(importlib.import_module(modn), fn)
+                    f = getattr(self.resolve(modn), fn)
                     style = cmd.get("style", "eval")
                     args = cmd.get("args", [])
                     kwargs = cmd.get("kwargs", {})
